@@ -48,9 +48,9 @@ func raceSignature(blk string) (sig string, inRepo bool, harnessOnly bool) {
 	// sections: "<Access kind> at 0x... by goroutine N:" followed by frames; then "Previous <kind> at ..."
 	lines := strings.Split(blk, "\n")
 	type acc struct {
-		kind string
-		top  string // top-most repo frame
-		any  string // top-most frame at all
+		kind         string
+		top          string // top-most repo frame
+		any          string // top-most frame at all
 		harness      bool
 		firstHarness string
 	}
